@@ -94,6 +94,9 @@ def feasible_items(tier):
         sp = F.with_teams(fl, "POOL2")
         sp = dict(sp, teams=[dict(tm, wire="ctor") for tm in sp["teams"]])
         out.append((sp, {"rule": "TSLACK", "max_time": F.seq_bound(sp) + 6}))
+    # one component with two sequential facility tasks whose workplaces differ (every needed facility exists and is free: feasible)
+    for sp in F.sequential_facility_specs():
+        out.append((sp, {"rule": "TSLACK", "max_time": F.seq_bound(sp) + 4}))
     # automatic tasks bound to a component (workplace without space limit): feasible without any free worker
     for sp in F.auto_placement_specs():
         for aa in (False, True):
@@ -265,7 +268,7 @@ def run(tier, seed):
         colb.merge(stepcheck.explore(fe2, [mon_feasible], H, 2, who_fn=lambda sp: stepcheck.default_who(sp, facilities=False), seed=seed))
     else:
         colb = stepcheck.explore(fe, [mon_feasible], H, D, who_fn=lambda sp: stepcheck.default_who(sp, facilities=False), seed=seed)
-    colb.merge(stepcheck.explore(stepcheck.edited_items(names=("team-add-target", "worker-skill", "task-work", "worker-absence-inplace", "worker-solo", "add-link")), [mon_feasible], 0, 0, seed=seed))
+    colb.merge(stepcheck.explore(stepcheck.edited_items(names=("team-add-target", "worker-skill", "task-work", "worker-absence-inplace", "worker-solo", "add-link", "restaff", "add-task", "move-facility")), [mon_feasible], 0, 0, seed=seed))
     # stopped mid-task and started again with the states reset (logs kept): still feasible
     rs = stepcheck.restarted_items([it for it in fe if it[1]["rule"] == "TSLACK"][:: (6 if tier == "quick" else 2)], ks=(1, 2, 3))
     colb.merge(stepcheck.explore(rs, [mon_feasible], 0, 0, seed=seed))
